@@ -24,6 +24,7 @@ type IterProd struct {
 	Stop string `json:"stop"` // iter/seq: expression raised at the end
 	Sub  int    `json:"sub"`  // index of the wrapped producer (deleg map filter genexp zipl enum)
 	Sub2 int    `json:"sub2"` // second wrapped producer (zip2 map2); -1 otherwise
+	Body string `json:"body,omitempty"` // genrand: text of the generator function gr<Tag> (GenBody)
 }
 
 type IterOp struct {
@@ -43,7 +44,7 @@ var IterConsumers = []string{
 }
 
 var iterWrappers = []string{"deleg", "map", "filter", "genexp", "zipl", "enum", "deleg", "zip2", "map2"}
-var iterLeaves = []string{"gen", "gen", "gen", "iter", "iter", "seq", "list", "range", "tuple", "genfin", "genleak", "coro", "lenseq", "callit"}
+var iterLeaves = []string{"gen", "gen", "gen", "iter", "iter", "seq", "list", "range", "tuple", "genfin", "genleak", "coro", "lenseq", "callit", "genrand", "genrand", "genrand"}
 
 // IterExclude lists features that must not be generated (known findings).
 type IterExclude map[string]bool
@@ -57,6 +58,14 @@ func genPipeline(r *simrt.Rand) *IterProg {
 	if leaf.Kind != "coro" && r.Chance(1, 4) {
 		leaf.Fail = r.Intn(4)
 		leaf.Exc = IterExcs[r.Intn(len(IterExcs))]
+	}
+	if r.Chance(1, 3) {
+		leaf.Kind, leaf.Fail, leaf.Exc = "genrand", -1, ""
+		withRaise := r.Chance(1, 4)
+		if withRaise {
+			leaf.Exc = IterExcs[r.Intn(len(IterExcs))]
+		}
+		leaf.Body = GenBody(simrt.NewRand(r.Uint64()), leaf.Tag, withRaise)
 	}
 	p.Prods = append(p.Prods, leaf)
 	p.Ops = append(p.Ops, IterOp{K: "new", G: 0})
@@ -136,6 +145,15 @@ func GenIter(r *simrt.Rand, excl IterExclude) *IterProg {
 				}
 			}
 		}
+		if pr.Kind == "genrand" {
+			withRaise := false
+			if r.Chance(1, 3) {
+				if e := pickFrom(IterExcs, "exc:"); e != "" && !excl["fail"] {
+					pr.Exc, withRaise = e, true
+				}
+			}
+			pr.Body = GenBody(simrt.NewRand(r.Uint64()), pr.Tag, withRaise)
+		}
 		pr.Stop = "StopIteration"
 		if pr.Kind == "iter" || pr.Kind == "seq" {
 			if s := pickFrom(IterStops, "stop:"); s != "" {
@@ -211,7 +229,7 @@ func (p *IterProg) yieldsTuples(g int) bool {
 func (p *IterProg) sendable(g int) bool {
 	for i := 0; g >= 0 && i < 10; i++ {
 		switch p.Prods[g].Kind {
-		case "gen", "genfin", "coro":
+		case "gen", "genfin", "coro", "genrand":
 			return true
 		case "deleg":
 			g = p.Prods[g].Sub
@@ -405,6 +423,16 @@ def odd(x):
 func (p *IterProg) Render() string {
 	var b strings.Builder
 	b.WriteString(iterPrelude)
+	hasBody := false
+	for _, pr := range p.Prods {
+		if pr.Body != "" {
+			if !hasBody {
+				b.WriteString(genBodyPrelude)
+				hasBody = true
+			}
+			b.WriteString(pr.Body)
+		}
+	}
 	for i, op := range p.Ops {
 		id := fmt.Sprintf("\"o%d\"", i)
 		g := fmt.Sprintf("g%d", op.G)
@@ -425,6 +453,8 @@ func (p *IterProg) Render() string {
 				e = fmt.Sprintf("gen(%d, %d, %d, %s)", pr.Tag, pr.N, pr.Fail, exc)
 			case "genfin":
 				e = fmt.Sprintf("genfin(%d, %d, %d, %s)", pr.Tag, pr.N, pr.Fail, exc)
+			case "genrand":
+				e = fmt.Sprintf("gr%d(%d, %s)", pr.Tag, pr.Tag, exc)
 			case "genleak":
 				e = fmt.Sprintf("genleak(%d, %d)", pr.Tag, pr.N)
 			case "coro":
